@@ -42,7 +42,9 @@ func TestProp(t *testing.T) {
 		"the end of shutdownResolver (run by context.AfterFunc) is observed through its SubscriptionCountDec report",
 	)
 	r.RequireLabel("trigger-removed-while-starting", "shutdown-with-2+-live-triggers", "split-reached:"+subrig.PtStart, "split-reached:"+subrig.PtInit,
-		"start-failure", "start-blocked", "trigger-key-recreated", "joiner-hook-fails", "start-called-for-dead-trigger", "done-on-dead-trigger", "enum-cases")
+		"start-failure", "start-blocked", "trigger-key-recreated", "joiner-hook-fails", "start-called-for-dead-trigger", "done-on-dead-trigger", "enum-cases",
+		"real:pair-must-not-share", "real:pair-must-share", "real:diff:extensions", "real:diff:extensions.nested", "real:diff:variables.nested", "real:diff:header",
+		"real:mutation:body.extensions.token", "real:mutation:body.variables.in.a.b", "real:mutation:url", "real:mutation:initial_payload.authorization")
 	r.Regress(dispatch())
 	r.RunProbes(probes())
 	if r.FirstShard() {
@@ -51,6 +53,7 @@ func TestProp(t *testing.T) {
 		}
 	}
 	runEnum(t, r)
+	realSourcePart.Run(r)
 	m := machine
 	if os.Getenv("VERIF_RACE") != "" {
 		// the -race build of the thorough tier runs the same machine about ten times slower
@@ -118,6 +121,7 @@ func dispatch() pbt.Dispatch {
 	return pbt.Dispatch{}.
 		Add(machine.Name, machine.Handler()).
 		Add("enum", machine.Handler()).
+		Add(realSourcePart.Name, realSourcePart.Handler()).
 		Add("solo-sanity", func(json.RawMessage) string { return subrig.SoloSanity() }).
 		WithProbes(probes())
 }
